@@ -70,6 +70,19 @@ class Check:
         if not replay:
             from .. import kindcheck
             kindcheck.report(rep, tier, seed, self.prop)
+            # a composite single-use value requested by several threads still comes back whole to one of them (C12's leaf race)
+            from .c12 import Check as C12
+            c12 = C12(); c12.prop = self.prop
+            c12.leaf_race(rep, tier)
+            # a repeatable value whose Clone panicked once is reproduced again afterwards (no poisoned slot)
+            exe = os.path.join(engine.HARNESS, 'target', 'debug', 'crashpoints')
+            ok3, log3 = engine.build_harness(['crashpoints'])
+            if ok3:
+                for topo in ('clone-outside', 'clone-only'):
+                    pc = subprocess.run([exe, 'clone-return', topo], capture_output=True, text=True, timeout=120)
+                    if pc.returncode != 0 or ' ok ' not in pc.stdout:
+                        rp = engine.write_replay(self.prop, 'spec', f"{exe} clone-return {topo}\n", [f"a repeatable return value is not reproduced after its Clone panicked once: {(pc.stdout + pc.stderr).strip()[-300:]}"])
+                        rep.violation(rp, f"repeatable value not reproduced after a panicking Clone ({topo}): {(pc.stdout + pc.stderr).strip()[-200:]}")
         return rep.finish()
 
     def explore(self, rep, only_paths=None, merge=False, prop=None):
